@@ -264,6 +264,36 @@ func solveObligation(o *Obligation, reg *Registry, cfg *SolverCfg) {
 	o.Status = "discharged"
 }
 
+// vacuityProbe (diagnostic): after an obligation is discharged, are the premises of at least one of its
+// path instances satisfiable? (an infeasible path is normal; an obligation with only infeasible paths is suspicious)
+var vacuityProbe bool
+
+func probeVacuity(o *Obligation, reg *Registry, cfg *SolverCfg) {
+	var b strings.Builder
+	b.WriteString(reg.prelude())
+	for _, in := range o.Instances {
+		b.WriteString("(push 1)\n")
+		for _, f := range in.PC {
+			b.WriteString("(assert " + f + ")\n")
+		}
+		b.WriteString("(check-sat)\n(pop 1)\n")
+	}
+	file := filepath.Join(cfg.OutDir, sanitize(o.Name)+".vacuity.smt2")
+	if os.WriteFile(file, []byte(b.String()), 0o644) != nil {
+		return
+	}
+	ans, _, _ := runSolver(solverCmds[0], file, 3)
+	all := len(ans) == len(o.Instances) && len(ans) > 0
+	for _, a := range ans {
+		if a != "unsat" {
+			all = false
+		}
+	}
+	if all {
+		fmt.Printf("VACUOUS? %s (%d instances, all premises unsat) %s\n", o.Name, len(o.Instances), file)
+	}
+}
+
 func firstLines(s string, n int) string {
 	ls := strings.Split(strings.TrimSpace(s), "\n")
 	if len(ls) > n {
